@@ -24,8 +24,8 @@ CONFIG = dict(
     ],
     units=[
         dict(test="TestC11Totals", kind="plain", shards=16, timeout_t=3000, gomaxprocs=1),
-        dict(test="TestC11Sets", quick=100000, thorough=3200000, shards=16),
-        dict(test="TestC11Counter", quick=150000, thorough=4800000, shards=16),
-        dict(test="TestC11Limit", quick=100000, thorough=3200000, shards=16),
+        dict(test="TestC11Sets", quick=40000, thorough=3200000, shards=16),
+        dict(test="TestC11Counter", quick=60000, thorough=4800000, shards=16),
+        dict(test="TestC11Limit", quick=50000, thorough=3200000, shards=16),
     ],
 )
